@@ -14,8 +14,8 @@
     What relates it to the code ([kiter_is_process]): if the rate parameter is fixed and idle
     ([rate_steady]: [Parameter::new(Value::Fixed r)], never set) and the number type satisfies
     [lerp r r ((i + 1) / len) = lerp r r 1] for the chunk lengths in question ([Hfixed]: true in Q
-    for every length, [fixed_rate_Q]; in binary64 for finite positive [(i + 1) / len], C13's
-    [interp_fixed_t_irrelevant_b64]), then on every chunk on which C04's [process] returns [Ok]
+    for every length, [fixed_rate_Q]; in binary64 for chunks of fewer than 2^53 frames,
+    [fixed_rate_f64] in C11/InstancesB64.v, from C13's [interp_fixed_t_irrelevant]), then on every chunk on which C04's [process] returns [Ok]
     and leaves the sound playing, [kiter] returns exactly the same state and the same frames; and
     C04's [frames_loop] itself is sequential: n + m frames = n frames then m frames
     ([frames_loop_steady_app]).  With a tweening rate this is false — [increment_of] depends on
